@@ -152,6 +152,9 @@ Added for the statistics formulas (C17; used only where an extractor asks for th
 * `e.where(c, other)` (pandas) is `if c then e else other`;
 * `E.mean()` / `np.mean(E)` as the returned value of an elementwise `E` is the arithmetic mean of `E` over the
   elements: `(a.map elem).sum / a.length`.
+
+String-valued functions (sorter_chrom, to_label) are read by a separate, equally narrow translator with its own stated
+reading rules: `harness/extractors/exprs_chromsort.py` (primitives in `lean/CnvVerif/Model/PyStr.lean`).
 """
 from __future__ import annotations
 
